@@ -195,7 +195,9 @@ def main():
         "engines": [
             {"name": "tlc+zvth", "path": "/verif/check", "serves_properties": sorted(CLAIMED),
              "kind_free_text": "explicit TLA+ specification under /verif/spec checked by TLC; Rust conformance harness /verif/harness "
-                               "(replays TLC-generated cases into the real code, records traces of the real code for TLC to validate)"},
+                               "(replays TLC-generated cases into the real code, records traces of the real code for TLC to validate); the shipped binaries "
+                               "feig_update and zvt_cli run as processes against a scripted terminal over loopback TCP (C05, C06, C11); "
+                               "Apalache discharges two inductive invariants in the thorough tier (C07, C09)"},
         ],
         "checks": checks,
         "not_applicable": na,
